@@ -118,6 +118,8 @@ type dirState struct {
 
 	kexInit []byte // last KEXINIT payload seen in this direction
 	results []KexResult
+	// awaitingKeys: a NEWKEYS was seen before the key material arrived
+	awaitingKeys bool
 }
 
 // Monitor observes one SSH connection.
@@ -183,6 +185,12 @@ func (m *Monitor) AddResult(server bool, r KexResult) {
 		d = 1
 	}
 	m.d[d].results = append(m.d[d].results, r)
+	if m.d[d].awaitingKeys && !m.Stopped {
+		m.d[d].awaitingKeys = false
+		m.newKeys(d)
+		for !m.Stopped && m.step(d) {
+		}
+	}
 }
 
 // Version returns the version line seen in a direction.
@@ -204,6 +212,9 @@ func (m *Monitor) Feed(dir int, p []byte) {
 
 func (m *Monitor) step(dir int) bool {
 	d := m.d[dir]
+	if d.awaitingKeys {
+		return false
+	}
 	if !d.versionDone {
 		i := bytes.IndexByte(d.buf, '\n')
 		if i < 0 {
@@ -620,8 +631,10 @@ func (m *Monitor) newKeys(dir int) {
 		return
 	}
 	if len(d.results) == 0 {
-		// no key material known for this side (e.g. a scripted peer): stop decoding this connection
-		m.Stopped = true
+		// the key material of this side is not known yet (the endpoint reports
+		// it when its key agreement returns, a scripted peer when it has
+		// computed it): hold this direction until AddResult delivers it
+		d.awaitingKeys = true
 		return
 	}
 	r := d.results[0]
